@@ -1,5 +1,5 @@
 """Property table: what each check runs in each tier."""
-from vlib import drive_and_validate, run_model, generate_histories, replay_histories, NCPU
+from vlib import drive_and_validate, run_model, generate_histories, replay_histories, build_harness, NCPU
 
 
 def sz(ctx, quick, thorough):
@@ -108,6 +108,27 @@ def run_C13(ctx):
     drive_and_validate(ctx, [{"driver": "C13", "n": sz(ctx, 1600, 60000), "probes": 24}])
 
 
+def run_C18(ctx):
+    build_harness(ctx, race=True)
+    ctx.race_mode = True
+    quick = ctx.tier == "quick"
+    # all interleavings of 2 calls x 4 segments and of 3 calls x 2 (quick) / 3 (thorough) segments
+    total = 0
+    for n, s in ((2, 4), (3, 2 if quick else 3)):
+        cfg = ("INIT SInit\nNEXT SNext\nCONSTANT N = %d\nCONSTANT S = %d\nINVARIANT PkgUntouched\n"
+               "PROPERTY PkgNeverWritten\nINVARIANT EmitSched\nCHECK_DEADLOCK FALSE\n" % (n, s))
+        hist, k = generate_histories(ctx, "Sched", cfg, workers=4)
+        total += k
+        ctx.sched_args = []
+        replay_histories(ctx, hist, "replay-sched", chunks=4)
+    ctx.exhaustive = True
+    ctx.notes.append("%d schedules (every interleaving of the segment model) forced onto goroutines under -race" % total)
+    # free-running stress under the race detector
+    ctx.sched_args = []
+    free = '{"free":%d,"rounds":%d}' % ((16, 40) if quick else (64, 400))
+    replay_histories(ctx, None, "replay-sched", chunks=1, histories=['<<"HIST", %s>>' % __import__("json").dumps(free)])
+
+
 PROPS = {
     "C01": {"run": run_C01,
             "rule": "seeded generators (9 families) x 4 clip types x 4 fill rules x 4 entry points; an event is non-trivial "
@@ -170,6 +191,13 @@ PROPS = {
             "rule": "boolean ops / RectClip / polygon offsetting / PointInPolygon / Area64 on a small base input and on the "
                     "same input translated anywhere within +-2^52 and scaled by factors up to MaxCoord/extent (2^61); "
                     "non-trivial: non-empty base result"},
+    "C18": {"run": run_C18,
+            "rule": "every interleaving (enumerated by TLC from Sched.tla) of the segments of 2-3 concurrent long-running calls "
+                    "(engine64 / engineD executions cut at scan-beams, ClipperOffset at paths, RectClip64 at paths) on shared "
+                    "read-only inputs, forced through blocking gate hooks in a -race build, plus free-running stress of 16-64 "
+                    "goroutines; every schedule is a distinct non-trivial case",
+            "level_note": "The data-race clause is observed by the Go race detector (a report is direct evidence from the real "
+                          "code); the specification contributes the schedules and the result oracle. Trusted: TLC, Go -race."},
     "C02": {"run": run_C02,
             "rule": "as C01 with preserve-collinear / reverse-solution toggled; non-trivial as C01"},
 }
